@@ -7,6 +7,7 @@ mod util;
 mod bringup;
 mod c03;
 mod c04;
+mod c05;
 mod c06;
 mod c09;
 mod c10;
@@ -68,6 +69,7 @@ fn main() {
     let r = std::panic::catch_unwind(|| match id.as_str() {
         "C03" => c03::main(&args),
         "C04" => c04::main(&args),
+        "C05" => c05::main(&args),
         "C06" => c06::main(&args),
         "C09" => c09::main(&args),
         "C10" => c10::main(&args),
